@@ -69,3 +69,40 @@ Theorem fit_int_truncation_refuted :
   /\ bound_ok 10 (val I64 (2 ^ 32 + 1)) = false /\ bound_ok 10 (sgn 32 1) = true.
 Proof. exact fit_truncation_refuted. Qed.
 Print Assumptions fit_int_truncation_refuted.
+
+(* ---- type assertions (C03.Assert) ---- *)
+From LLGoV Require Import C03.Assert C03.AssertProofs.
+Local Open Scope nat_scope.
+
+(* x.(T) and v, ok := x.(T), for every static interface type of x, every
+   dynamic type (none: nil interface, compile-time or reflect-made descriptor)
+   and every asserted type: the emitted test (non-nil test on identical
+   interface types, runtime Implements, pointer equality of descriptors, or
+   MatchesClosure for func types) holds exactly when Go's rule holds, so the
+   plain form panics iff the assertion fails (raised, and raised only then)
+   and the comma-ok form never panics. *)
+Theorem type_assertion_outcome_exact : forall siid sreq tg tx commaok,
+  wf_case siid sreq tg tx ->
+  assert_outcome true siid tg tx commaok =
+  if spec_holds tg tx then AOk else if commaok then ANotOk else APanic.
+Proof. exact outcome_exact. Qed.
+Print Assumptions type_assertion_outcome_exact.
+
+Example type_assertion_nontrivial :
+  wf_case 0 [] (TConc d_func_int) (Some d_made) /\ wf_case 1 [1] (TIface 1 [1]) None
+  /\ assert_outcome true 1 (TIface 1 [1]) None false = APanic.
+Proof.
+  unfold wf_case, well_typed, wf_desc, uniq, d_func_int, d_made; cbn.
+  repeat split; try reflexivity; try discriminate; try (intros; discriminate); eauto;
+  intros; congruence.
+Qed.
+
+(* finding: the pinned MatchesClosure compared signatures whenever descriptors
+   differed - any(F(f)).(func(int)) succeeded *)
+Theorem func_type_assertion_pinned_refuted :
+  wf_desc d_func_int /\ wf_desc d_F /\ uniq d_func_int d_F
+  /\ assert_outcome false 0 (TConc d_func_int) (Some d_F) false = AOk
+  /\ spec_holds (TConc d_func_int) (Some d_F) = false
+  /\ assert_outcome true 0 (TConc d_func_int) (Some d_F) false = APanic.
+Proof. exact closure_match_pinned_refuted. Qed.
+Print Assumptions func_type_assertion_pinned_refuted.
